@@ -208,8 +208,8 @@ prop('C08',
                  'of the free set re-requests enabled sensitivities.')
 
 prop('C09',
-     [sbml.r09_1, sbml.r09_2, sbml.r09_3, sbml.r09_4, sbml.r09_5, sbml.r09_6,
-      switch.r08_7, reduced.r08_1, mech.r11_1, mech.r11_5, mech.r11_7],
+     [sbml.r09_1, sbml.r09_2, sbml.r09_3, sbml.r09_4, sbml.r09_5, sbml.r09_6, sbml.r09_7,
+      switch.r08_7, reduced.r08_1, mech.r11_1, mech.r11_5, mech.r11_7, mech.r11_8],
      undecided=['the ODE solution and its derivatives (myokit / sundials)',
                 'myokit\'s SBML import beyond the SBML level-3 reading of '
                 'species in kinetic laws'],
@@ -254,7 +254,7 @@ prop('C10',
                  'protocol row by row.')
 
 prop('C11',
-     [mech.r11_1, mech.r11_2, mech.r11_5, mech.r11_7, sbml.r09_6, copies.r11_3, copies.r11_6,
+     [mech.r11_1, mech.r11_2, mech.r11_5, mech.r11_7, mech.r11_8, sbml.r09_6, sbml.r09_7, copies.r11_3, copies.r11_6,
       switch.r08_7],
      undecided=['equality of simulation results (ODE solver)'],
      assumptions=COMMON_ASSUME,
